@@ -4,16 +4,16 @@ CONSTANTS
   Others = {"U"}
   Keys = {"k1", "k2"}
   Vals = {0, 1}
-  BaseVals = {0, 2}
+  BaseVals = {2}
   CallValues = {0, 3}
   Amounts = {1}
   MaxDepth = 2
-  MaxTransfers = 3
+  MaxTransfers = 2
   Deploys = FALSE
   Balances = FALSE
   KnownDefects <- NoneOn
-  Log <- LogLast
+  Log <- LogNone
   StepBound = 0
 VIEW cvars
-INVARIANTS TypeOK Inv_C40_Storage Inv_C40_InnerTransfers Inv_C40_CallValue Inv_C40_Context
+INVARIANTS TypeOK Inv_C40_Storage Inv_C40_OutputAccounts Inv_C40_CallValue Inv_C40_Context
 CHECK_DEADLOCK FALSE
